@@ -411,4 +411,4 @@ def run_case(p):
             seen.add(k)
             uniq.append(v)
     top = outcomes.most_common(1)[0][0] if outcomes else "none"
-    return {"violations": uniq, "outcome": f"{mode}:{top}" + (":viol" if uniq else ""), "nontrivial": steps > 0, "steps": steps, "stats": {f"out_{k}": v for k, v in outcomes.items()}}
+    return {"violations": uniq, "outcome": f"{mode}:{top}" + (":viol" if uniq else ""), "nontrivial": steps > 0, "steps": steps, "units": steps, "stats": {f"out_{k}": v for k, v in outcomes.items()}}
